@@ -16,7 +16,7 @@ class DI:
 		"""インスタンスを生成"""
 		self.__instances: dict[type, Any] = {}
 		self.__injectors: dict[type, Injector[Any]] = {}
-		self.__invocations: dict[str, dict[str, type]] = {}
+		self.__invocations: dict[Any, dict[str, type]] = {}
 
 	@duck_typed(Locator)
 	def can_resolve(self, symbol: type) -> bool:
@@ -154,13 +154,13 @@ class DI:
 			* このメソッドを通して生成したインスタンスはキャッシュされず、毎回生成される
 			```
 		"""
-		fullyname = to_fullyname(factory)
-		found = fullyname in self.__invocations
-		if not found:
-			annotated = self.__to_annotated(factory)
-			self.__invocations[fullyname] = self.__pluck_annotations(annotated)
+		annotated = self.__to_annotated(factory)
+		# XXX 同名のクロージャーを区別するため、名前ではなく関数オブジェクトをキーとする
+		cache_key = getattr(annotated, '__func__', annotated)
+		if cache_key not in self.__invocations:
+			self.__invocations[cache_key] = self.__pluck_annotations(annotated)
 
-		annos = self.__invocations[fullyname]
+		annos = self.__invocations[cache_key]
 		curried_args: list[type] = []
 		for anno in annos.values():
 			if not self.can_resolve(anno):
